@@ -109,6 +109,8 @@ def check(ctx):
         for label, thunk in cases:
             try:
                 msg = thunk()
+            except bitmachine.Misfit as e:
+                msg = 'the primitive %s (it overwrites the bits written before)' % e
             except bitmachine.Undecided as e:
                 n_und += 1
                 und = und or '%s: %s' % (label, e)
@@ -237,6 +239,16 @@ def check(ctx):
             return None
         return thunk
     r1('normally small length', fe, [('length %d' % n, nsl_case(n)) for n in (1, 2, 32, 63, 64, 65, 66, 100, 126, 127)])
+
+    # bit fields: append_bits(data, n) writes the first n bits of data (the value may carry more octets than n bits need: the type checker asks for
+    # "at least n bits"); read_bits(n) returns them left-aligned in ceil(n / 8) octets
+    fe = enc.methods.get('append_bits')
+    if fe is not None:
+        n_ok, n_und, bad_, und_ = bitmachine.check_append_bits(model, enc)
+        ctx.instance('C05.R1', 'bit field (append_bits): %d cases evaluated, %d undecided' % (n_ok, n_und), 'VIOLATION' if bad_ else ('ok' if n_ok else 'undecided'), und_ or '',
+                     nontrivial=n_ok > 0, node=fe, file=PER)
+        if bad_:
+            ctx.violation('C05.R1', PER, fe, Model.qual(fe), 'bit field (append_bits), %s: %s' % bad_, stmt='bit field (append_bits)')
 
     # ---- R2
     upm = model.mod(UPER)
@@ -654,3 +666,9 @@ MUTANTS.append(dict(name='uper.Choice index override removed (aligned index in U
 """, new="""class Choice(per.Choice):
     pass
 """, expect='C05.R10'))
+
+MUTANTS.append(dict(name='append_bits assumes exactly ceil(n / 8) octets of data', file=PER,
+                    old="""        value = int(binascii.hexlify(data), 16)
+        value >>= (8 * len(data) - number_of_bits)
+""", new="""        value = (int.from_bytes(data, 'big') >> (-number_of_bits % 8))
+""", expect='C05.R1'))
